@@ -4,6 +4,7 @@ A case is an overload family, registration orders and queries; everything is int
 
 Token encodings (prefix form, shared by driver, model and this file)
   scalar type   1 a | 2 n T* | 3 T (tuple[T,...]) | 4 T (set) | 5 K V (map)          atoms: 0 bool 1 int 2 float 3 str 4 int32
+                | 7 id n P* (named Bundle `id` with its n declared parent bundles, in declaration order)
   ts type       10 S (TS) | 11 S (TSS) | 12 n T (TSL, n=0 dynamic) | 13 K T (TSD) | 14 period min S (TSW)
                 | 15 name n (f T)* (TSB, name 0 = un-named) | 16 T (REF) | 17 (SIGNAL)
   scalar pat    20 v n C* (var + constraints) | 21 S (concrete) | 22 0 | 22 1 P (UnknownTuple) | 23 P (tuple[P,...])
@@ -18,7 +19,10 @@ Case lines
   4 out_required(-1|0|1) has_expected [T] ninit (store var payload)* nhints h* nargs (0 T | 1 S | 2 | 3)*    one query
       arg kinds: 0 time-series of schema T, 1 scalar value of schema S, 2 null source, 3 absent scalar (None)
   7 n (store var payload)*                                      a ResolutionMap bind script (store 0 ts, 1 scalar, 2 size)
+  8 S S                                                         probe: bundle_is_a / bundle_inheritance_distance(candidate, base)
 Observation lines
+  59 k is_a dist      probe k (dist -1 = none)
+  56 i rank           static rank of overload i (operator_rank)
   57 k ok*            script k: 1 per accepted bind, 0 per rejected (std::logic_error)
   58 k store var payload      final map of script k (sorted)
   55 q i kind rank    overload i registered ALONE, query q: kind 0 selected / 1 no match / 3 other exception; effective rank
@@ -34,11 +38,12 @@ NAME = "resolve"
 DRIVER_SRCS = ["resolve_driver.cpp"]
 MODEL_FAMILY = "resolve"
 MODE = "diff"
-BUDGET = {"quick": 1500, "thorough": 40000}
+BUDGET = {"quick": 1500, "thorough": 35000}
 
 KINDS = {"crash", "order_dependent", "wrong_selection", "missed_ambiguity", "false_ambiguity", "false_nomatch",
          "false_match", "rank_not_min", "tied_set", "unsound_match", "output_not_substitution", "bind_accepts_rebind",
-         "bind_rejects_consistent", "exception_escaped", "malformed_output", "false_reject", "false_accept"}
+         "bind_rejects_consistent", "exception_escaped", "malformed_output", "false_reject", "false_accept",
+         "inheritance_distance_not_shortest", "inheritance_order_dependent", "effective_rank_unexpected"}
 PROP_KINDS = {"C19": set(KINDS) | {"generic_scalar_beats_structured"}}  # S1 is a recorded known finding (known_findings.json C19-S1)
 
 ATOMS = [0, 1, 2, 3, 4]
@@ -59,6 +64,8 @@ def enc_sty(s):
         return [4] + enc_sty(s[1])
     if k == "map":
         return [5] + enc_sty(s[1]) + enc_sty(s[2])
+    if k == "bun":
+        return [7, s[1], len(s[2])] + [x for e in s[2] for x in enc_sty(e)]
     raise ValueError(s)
 
 
@@ -181,6 +188,16 @@ def dec_sty(l, i):
         k, i = dec_sty(l, i)
         v, i = dec_sty(l, i)
         return ("map", k, v), i
+    if tag == 7:
+        b, i = _next(l, i)
+        if b < 0:
+            raise Bad()
+        n, i = _count(l, i)
+        xs = []
+        for _ in range(n):
+            x, i = dec_sty(l, i)
+            xs.append(x)
+        return ("bun", b, tuple(xs)), i
     raise Bad()
 
 
@@ -341,7 +358,7 @@ def dec_tpat(l, i):
 
 def decode_case(case):
     """-> dict(ovs=[(label, has_out, out, params)], orders, queries, scripts) or None when malformed."""
-    ovs, orders, queries, scripts = [], [], [], []
+    ovs, orders, queries, scripts, probes = [], [], [], [], []
     try:
         for l in case:
             tag = l[0]
@@ -422,6 +439,10 @@ def decode_case(case):
                     else:
                         raise Bad()
                 queries.append({"oreq": oreq, "expected": exp, "init": init, "hints": hints, "args": args})
+            elif tag == 8:
+                c, i = dec_sty(l, i)
+                b, i = dec_sty(l, i)
+                probes.append((c, b))
             elif tag == 7:
                 n, i = _count(l, i)
                 ops = []
@@ -439,7 +460,7 @@ def decode_case(case):
                     raise Bad()
     except (Bad, IndexError):
         return None
-    return {"ovs": ovs, "orders": orders, "queries": queries, "scripts": scripts}
+    return {"ovs": ovs, "orders": orders, "queries": queries, "scripts": scripts, "probes": probes}
 
 
 def dec_bind(l, i):
@@ -465,6 +486,40 @@ def enc_bind(b):
 # Given the bindings the implementation REPORTS for its selection, check declaratively that every parameter pattern,
 # instantiated by those bindings, accepts the supplied argument.  No state is threaded: one substitution for all
 # positions, which is exactly "every type variable bound to one type across all positions".
+
+
+def ancestry(b, acc=None):
+    """explicit graph of a bundle term: id -> tuple of parent ids (declaration order)"""
+    acc = {} if acc is None else acc
+    if b[0] == "bun" and b[1] not in acc:
+        acc[b[1]] = tuple(p[1] for p in b[2])
+        for p in b[2]:
+            ancestry(p, acc)
+    return acc
+
+
+def shortest_distance(c, base):
+    """fewest parent edges from bundle c up to bundle base (breadth first); None if base is not an ancestor-or-self"""
+    if c[0] != "bun" or base[0] != "bun":
+        return None
+    g = ancestry(c)
+    frontier, seen, d = {c[1]}, {c[1]}, 0
+    while frontier:
+        if base[1] in frontier:
+            return d
+        nxt = set()
+        for x in frontier:
+            for p in g.get(x, ()):
+                if p not in seen:
+                    seen.add(p)
+                    nxt.add(p)
+        frontier, d = nxt, d + 1
+    return None
+
+
+def ts_bundle_sub(t, c):
+    """TS[Derived] offered where TS[Base] is declared"""
+    return t[0] == "ts" and c[0] == "ts" and t[1][0] == "bun" and c[1][0] == "bun" and shortest_distance(t[1], c[1]) is not None
 
 
 def strip_refs(t):
@@ -545,9 +600,13 @@ def t_inst(sig, p, t0, inp):
         return sig.get((0, p[1])) == t and (not p[2] or any(equiv(c, t) for c in p[2]))
     if k == "c":
         if inp:
-            return p[1][0] == "sig" or equiv(deref(p[1]), deref(t))
+            return p[1][0] == "sig" or equiv(deref(p[1]), deref(t)) or ts_bundle_sub(deref(t), deref(p[1]))
         return equiv(p[1], t)
     if k == "pts":
+        if inp and t[0] == "ts" and p[1][0] == "sv":
+            b = sig.get((1, p[1][1]))
+            if b is not None and b[0] == "bun" and t[1][0] == "bun" and shortest_distance(t[1], b) is not None:
+                return True          # a variable already bound to a bundle takes any descendant
         return t[0] == "ts" and s_inst(sig, p[1], t[1])
     if k == "ptss":
         return t[0] == "tss" and s_inst(sig, p[1], t[1])
@@ -792,6 +851,52 @@ def reference_match(ov, q):
     return not has_out or t_subst(sig, outp) is not None
 
 
+def _bundle_ids(p, acc):
+    if isinstance(p, tuple):
+        if p and p[0] == "bun":
+            acc.add(p[1])
+        for x in p:
+            _bundle_ids(x, acc)
+
+
+def _mirror_canon(t, keep, seen):
+    """a type with every bundle that no overload names replaced by the SET of its parents plus the ordinal of its
+    first occurrence in the query (so a consistent exchange of a bundle and its mirror - same parents declared in
+    another order - gives the same canonical query, while (L, L) and (L, mirror L) stay different)"""
+    if isinstance(t, tuple):
+        if t and t[0] == "bun" and t[1] not in keep:
+            if t[1] not in seen:
+                seen[t[1]] = len(seen)
+            return ("bun*", tuple(sorted(str(_mirror_canon(p, keep, {})) for p in t[2])), seen[t[1]])
+        return tuple(_mirror_canon(x, keep, seen) for x in t)
+    return t
+
+
+def expected_adjustment(ov, q):
+    """(rank adjustment the property statement implies for an accepted call, uses inheritance?) or None if not covered:
+    one per default used, one per coerced scalar, the SHORTEST inheritance distance per concrete TS[Base] leaf"""
+    if q["init"] or q["hints"]:
+        return None
+    nz = normalize(ov, q["args"])
+    if nz is None:
+        return None
+    nargs, adj = nz
+    inh = False
+    for (pk, p), a in zip(ov[3], nargs):
+        if pk == "in" and a[0] == "sc":
+            return None
+        if pk == "in" and a[0] == "ts" and p[0] == "c":
+            e, t = deref(p[1]), deref(a[1])
+            if not equiv(e, t) and e[0] == "ts" and t[0] == "ts" and e[1][0] == "bun" and t[1][0] == "bun":
+                d = shortest_distance(t[1], e[1])
+                if d is not None:
+                    adj += d
+                    inh = True
+        if pk == "sc" and a[0] == "sc" and p[0] == "sc" and p[1] != a[1]:
+            adj += 1
+    return adj, inh
+
+
 def arg_inst(sig, param, arg):
     pk, p = param
     ak = arg[0]
@@ -816,13 +921,17 @@ def arg_inst(sig, param, arg):
 
 
 def parse_out(impl_out):
-    r = {"solo": {}, "res": {}, "scripts": {}, "malformed": False}
+    r = {"solo": {}, "res": {}, "scripts": {}, "malformed": False, "static": {}, "probes": {}}
     for l in impl_out:
         tag = l[0]
         if tag == 99 or tag == 98:
             r["malformed"] = True
         elif tag == 55:
             r["solo"][(l[1], l[2])] = (l[3], l[4])
+        elif tag == 56:
+            r["static"][l[1]] = l[2]
+        elif tag == 59:
+            r["probes"][l[1]] = (l[2], l[3])
         elif tag == 50:
             r["res"][(l[1], l[2])] = {"kind": l[3], "label": l[4], "rank": l[5], "binds": {}, "out": None, "tied": []}
         elif tag == 51:
@@ -892,6 +1001,60 @@ def oracle(prop, case, impl_out):
                 fl.append(("false_reject", "overload %d accepts query %d (a consistent assignment exists) but is rejected" % (ov[0], q)))
             elif not want and got[0] == 0:
                 fl.append(("false_accept", "overload %d matches query %d but no consistent assignment exists" % (ov[0], q)))
+    # ---- direct probes: bundle_inheritance_distance is the SHORTEST number of parent edges, bundle_is_a = reachable
+    for k, (c, b) in enumerate(spec["probes"]):
+        got = out["probes"].get(k)
+        if got is None:
+            fl.append(("malformed_output", "missing probe %d" % k))
+            continue
+        d = shortest_distance(c, b)
+        if c[0] != "bun" or b[0] != "bun":
+            continue
+        if got[1] != (-1 if d is None else d) or got[0] != (0 if d is None else 1):
+            fl.append(("inheritance_distance_not_shortest", "bundle %d -> %d: is_a %d distance %d, shortest path %s"
+                       % (c[1], b[1], got[0], got[1], d)))
+    # ---- each candidate alone: effective rank = static rank + defaults used + coercions + inheritance distances
+    for i, ov in enumerate(ovs):
+        for q in range(nq):
+            got = out["solo"].get((q, i))
+            if got is None or got[0] != 0 or i not in out["static"]:
+                continue
+            exp = expected_adjustment(ov, spec["queries"][q])
+            if exp is None:
+                continue
+            adj, uses_inheritance = exp
+            if got[1] - out["static"][i] != adj:
+                fl.append(("inheritance_distance_not_shortest" if uses_inheritance else "effective_rank_unexpected",
+                           "overload %d query %d: effective rank %d, static %d, expected adjustment %d"
+                           % (ov[0], q, got[1], out["static"][i], adj)))
+    # ---- swapping the declaration order of a bundle's parents changes nothing: queries that differ only by a
+    #      leaf bundle and its mirror (same parents, other order; neither named by any overload) get the same verdict
+    named_in_ovs = set()
+    for ov in ovs:
+        _bundle_ids(ov[2], named_in_ovs)
+        for _, pp in ov[3]:
+            _bundle_ids(pp, named_in_ovs)
+    canon = {}
+    for q in range(nq):
+        qq = spec["queries"][q]
+        seen_b = {}
+        key = (qq["oreq"], tuple(_mirror_canon(a, named_in_ovs, seen_b) for a in qq["args"]),
+               _mirror_canon(qq["expected"], named_in_ovs, seen_b), tuple(_mirror_canon(b, named_in_ovs, seen_b) for b in qq["init"]),
+               tuple(qq["hints"]))
+        canon.setdefault(key, []).append(q)
+    for qs in canon.values():
+        if len(qs) < 2 or len({str(spec["queries"][q]["args"]) for q in qs}) < 2:
+            continue
+        for o in range(len(spec["orders"])):
+            views = {}
+            for q in qs:
+                r = out["res"].get((o, q))
+                if r is not None:
+                    views[q] = (r["kind"], r["label"], r["rank"], sorted(r["tied"]))
+            if len(set(map(str, views.values()))) > 1:
+                fl.append(("inheritance_order_dependent", "queries %s differ only in the parent declaration order of a leaf bundle "
+                           "but resolve differently in order %d: %s" % (qs, o, views)))
+                break
     # ---- per order: the outcome is determined by which candidates match alone and their effective ranks
     for o, order in enumerate(spec["orders"]):
         for q in range(nq):
@@ -1675,7 +1838,125 @@ def malformed(rng, case):
     return c if decode_case(c) is None else case
 
 
+def _demo_hierarchy():
+    """the hierarchy of seeded change C19w3-inheritance-distance-first-path"""
+    instrument = ("bun", 1, ())
+    tradable = ("bun", 2, (instrument,))
+    derivative = ("bun", 3, (tradable,))
+    option = ("bun", 4, (derivative,))
+    record = ("bun", 5, ())
+    reportable = ("bun", 6, (record,))
+    regulated = ("bun", 7, (reportable,))
+    listed = ("bun", 8, (tradable, regulated))
+    return [instrument, tradable, derivative, option, record, reportable, regulated, listed], (listed, option)
+
+
+def _random_hierarchy(rng):
+    nodes = [("bun", 1, ())]
+    if rng.random() < 0.5:
+        nodes.append(("bun", 2, ()))
+    for _ in range(rng.randint(3, 7)):
+        k = 1 if rng.random() < 0.65 or len(nodes) < 2 else rng.choice([2, 2, 3])
+        ps = rng.sample(nodes, min(k, len(nodes)))
+        nodes.append(("bun", len(nodes) + 1, tuple(ps)))
+    # the leaf's parents: prefer two nodes with a common ancestor at different distances (a diamond)
+    best = None
+    for _ in range(12):
+        ps = rng.sample(nodes, min(rng.choice([2, 2, 3]), len(nodes)))
+        probe = ("bun", 0, tuple(ps))
+        g = ancestry(probe)
+        shared = [a for a in g if a != 0 and sum(1 for p in ps if shortest_distance(p, ("bun", a, ())) is not None) >= 2]
+        uneven = [a for a in shared if len({shortest_distance(p, ("bun", a, ())) for p in ps
+                                            if shortest_distance(p, ("bun", a, ())) is not None}) >= 2]
+        if uneven:
+            best = ps
+            break
+        best = best or ps
+    return nodes, tuple(best)
+
+
+def gen_inheritance(rng, tier):
+    """nominal bundle inheritance with diamonds: overloads on several ancestors TS[Base_i], called with TS[Derived];
+    the derived bundle and its mirror (same parents declared in the other order) must resolve alike, by shortest distance"""
+    nodes, parents = _demo_hierarchy() if rng.random() < 0.25 else _random_hierarchy(rng)
+    n0 = len(nodes)
+    leaf = ("bun", n0 + 1, tuple(parents))
+    mirror = ("bun", n0 + 2, tuple(reversed(parents)))
+    if len(enc_sty(leaf)) > 300:
+        nodes, parents = _demo_hierarchy()
+        n0 = len(nodes)
+        leaf, mirror = ("bun", n0 + 1, tuple(parents)), ("bun", n0 + 2, tuple(reversed(parents)))
+    by_id = {b[1]: b for b in nodes}
+    anc = sorted(a for a in ancestry(leaf) if a != leaf[1])
+    far = sorted(anc, key=lambda a: -shortest_distance(leaf, by_id[a]))
+
+    def ts(b):
+        return ("ts", b)
+    extra = rng.random() < 0.3          # a second, ordinary parameter shared by all overloads
+    nov = rng.randint(2, 4)
+    ovs = []
+    picks = rng.sample(anc, min(nov, len(anc)))
+    if rng.random() < 0.6 and len(far) >= 2:
+        picks[0] = far[0]               # an ancestor strictly behind the shared node
+        picks[-1] = far[1] if far[1] != far[0] else picks[-1]
+    for k, a in enumerate(picks):
+        r = rng.random()
+        b = by_id[a]
+        if r < 0.7:
+            pat = ("c", ts(b))
+        elif r < 0.82:
+            pat = ("c", ("ref", ts(b)))
+        elif r < 0.9:
+            pat = ("pref", ("c", ts(b)))
+        else:
+            pat = ("pts", ("sc", b))     # exact bundle only
+        ps = [("in", pat)] + ([("in", ("c", ("ts", ("a", 1))))] if extra else [])
+        ovs.append((k + 1, False, None, ps))
+    r = rng.random()
+    if r < 0.2:
+        ovs.append((len(ovs) + 1, False, None, [("in", ("pts", ("sv", 1, ())))] + ([("in", ("c", ("ts", ("a", 1))))] if extra else [])))
+    elif r < 0.3:
+        ovs.append((len(ovs) + 1, False, None, [("in", ("v", 1, ()))] + ([("in", ("c", ("ts", ("a", 1))))] if extra else [])))
+    elif r < 0.4 and not extra:
+        # a variable bound to a bundle takes any descendant at a later position (and only then)
+        ovs = [(1, False, None, [("in", ("pts", ("sv", 1, ()))), ("in", ("pts", ("sv", 1, ())))]),
+               (2, False, None, [("in", ("c", ts(by_id[rng.choice(anc)]))), ("in", ("v", 2, ()))])]
+    two = len(ovs[0][3]) == 2 and not extra
+    queries = []
+
+    def q(*types):
+        args = [("ts", t) for t in types] + ([("ts", ("ts", ("a", 1)))] if extra else [])
+        queries.append({"oreq": -1, "expected": None, "init": [], "hints": [], "args": args})
+    mids = rng.sample(nodes, min(2, len(nodes)))
+    if two:
+        b = by_id[rng.choice(anc)]
+        for x, y in ((ts(b), ts(leaf)), (ts(leaf), ts(b)), (ts(b), ts(mirror)), (ts(leaf), ts(leaf)), (ts(leaf), ts(mirror))):
+            q(x, y)
+    else:
+        q(ts(leaf))
+        q(ts(mirror))
+        if rng.random() < 0.5:
+            q(("ref", ts(leaf)))
+            q(("ref", ts(mirror)))
+        for m in mids:
+            q(ts(m))
+        if rng.random() < 0.3:
+            q(("tsl", ts(leaf), 2))
+    n = len(ovs)
+    ident = list(range(n))
+    if n <= 3 or tier == "thorough":
+        orders = [list(p) for p in itertools.permutations(ident)]
+    else:
+        orders = [ident, ident[::-1]] + [rng.sample(ident, n) for _ in range(3)]
+    allb = nodes + [leaf, mirror]
+    probes = [[8] + enc_sty(c) + enc_sty(b) for c in (leaf, mirror) for b in allb]
+    probes += [[8] + enc_sty(c) + enc_sty(b) for c in rng.sample(nodes, min(3, len(nodes))) for b in rng.sample(allb, min(4, len(allb)))]
+    return [enc_overload(o) for o in ovs] + [[3, len(o)] + o for o in orders] + [enc_query(x) for x in queries] + probes
+
+
 def gen(rng, tier, prop):
+    if rng.random() < 0.12:
+        return gen_inheritance(rng, tier)
     ctx = Ctx(rng)
     arity = rng.choice([1, 1, 2, 2, 2, 3])
     kinds = [rng.choices(["ts", "scalar", "mixed"], [80, 12, 8])[0] for _ in range(arity)]
@@ -1877,7 +2158,7 @@ def shrink(case):
         yield c
     # drop one query / order / script line
     for j, l in enumerate(case):
-        if l and l[0] in (3, 4, 7):
+        if l and l[0] in (3, 4, 7, 8):
             yield case[:j] + case[j + 1:]
     # drop the last parameter of every overload together with the last argument of every query
     spec = decode_case(case)
